@@ -1015,3 +1015,34 @@ Theorem C11_simpleloop_exact_native : forall h w py px blocked st ans,
                                    (List.cons blocked nil)) ans = true).
 Proof. exact simpleloop_exact_prim. Qed.
 Print Assumptions C11_simpleloop_exact_native.
+
+From Cspuz Require Import Puzzle.CreekPrim Puzzle.NurimisakiPrim Puzzle.HeyawakePrim Puzzle.LitsPrim.
+Theorem C11_creek_exact_native : forall h w clue st ans,
+  solve_creek_model_prim (List.cons (List.cons (Z.of_nat h) (List.cons (Z.of_nat w) nil)) (List.cons clue nil)) = Ok st ->
+  ((exists en, model_of gsem_avc en st /\ reads st en (seq 0 (h * w)) = ans)
+   <-> rules_creek (List.cons (List.cons (Z.of_nat h) (List.cons (Z.of_nat w) nil)) (List.cons clue nil)) ans = true).
+Proof. exact creek_exact_prim. Qed.
+Print Assumptions C11_creek_exact_native.
+
+Theorem C11_nurimisaki_exact_native : forall h w grid st ans,
+  solve_nurimisaki_model_prim (List.cons (List.cons (Z.of_nat h) (List.cons (Z.of_nat w) nil)) (List.cons grid nil)) = Ok st ->
+  ((exists en, model_of gsem_avc en st /\ reads st en (seq 0 (h * w)) = ans)
+   <-> rules_nurimisaki (List.cons (List.cons (Z.of_nat h) (List.cons (Z.of_nat w) nil)) (List.cons grid nil)) ans = true).
+Proof. exact nurimisaki_exact_prim. Qed.
+Print Assumptions C11_nurimisaki_exact_native.
+
+Theorem C11_heyawake_exact_native : forall h w room clue st ans,
+  solve_heyawake_model_prim (List.cons (List.cons (Z.of_nat h) (List.cons (Z.of_nat w) nil))
+                               (List.cons room (List.cons clue nil))) = Ok st ->
+  ((exists en, model_of gsem_avc en st /\ reads st en (seq 0 (h * w)) = ans)
+   <-> rules_heyawake (List.cons (List.cons (Z.of_nat h) (List.cons (Z.of_nat w) nil))
+                          (List.cons room (List.cons clue nil))) ans = true).
+Proof. exact heyawake_exact_prim. Qed.
+Print Assumptions C11_heyawake_exact_native.
+
+Theorem C11_lits_exact_native : forall h w region st ans,
+  solve_lits_model_prim (List.cons (List.cons (Z.of_nat h) (List.cons (Z.of_nat w) nil)) (List.cons region nil)) = Ok st ->
+  ((exists en, model_of gsem_avc en st /\ reads st en (seq 0 (h * w)) = ans)
+   <-> rules_lits (List.cons (List.cons (Z.of_nat h) (List.cons (Z.of_nat w) nil)) (List.cons region nil)) ans = true).
+Proof. exact lits_exact_prim. Qed.
+Print Assumptions C11_lits_exact_native.
